@@ -114,6 +114,8 @@ def walk (code : Nat) : (fuel : Nat) → (bs : Bytes) → (maxOpt : Nat) → R (
 /-- token part of `coap_pdu_parse_header`: `e_token_length` and the offset of
 the actual token inside it.  `tk` are the bytes from `pdu->token` on. -/
 def tokenHdr (tkl : Nat) (tk : Bytes) : R (Nat × Nat) :=
+  -- the extended token length bytes must have been received (`used_size = tk.length`)
+  if (tkl = 13 ∧ tk.length < 1) ∨ (tkl = 14 ∧ tk.length < 2) then R.rej else
   if tkl < 13 then R.ok (tkl, 0)
   else if tkl = 13 then do
     let b ← rd tk 0
